@@ -470,6 +470,15 @@ def gen(snapshot=None):
             w(f"Definition {k}_stages_ordered : bool := {'true' if all(x == 'buffered' for x in v) else 'false'}.")
             w(f"Definition {k}_stage_count : N := {len(v)}.")
         facts["stages"] = allst
+        # the only source of concurrency in the writers and in the clone command is spawn_blocking inside those ordered
+        # stages: any other construct (spawned tasks, unordered sets, channels, select/join, locks, atomics, threads)
+        # would need a model of its own
+        other = r"tokio::spawn|task::spawn\(|thread::spawn|FuturesUnordered|FuturesOrdered|select!|join!|join_all|try_join|mpsc|oneshot|broadcast|watch::|Mutex|RwLock|Atomic|rayon|par_iter|Semaphore|Notify"
+        for name, text in (("create_archive", lib_fn), ("chunk_input", cli_fn), ("clone_cmd.rs", strip_comments(cl))):
+            m = re.search(other, strip_comments(text))
+            if m:
+                raise TranslateError(f"concurrency construct `{m.group(0)}` in {name} is not covered by the pipeline model")
+        w("Definition only_ordered_stage_concurrency : bool := true.")
         # flush/seek between last temp write and reopen of the temp file (F4)
         after_loop = cli_fn[cli_fn.rfind(".write_all(use_data)"):]
         cli_flush = bool(re.search(r"temp_file\s*\.(flush|sync_all|sync_data|shutdown|rewind|seek)\(", after_loop))
